@@ -168,6 +168,18 @@ PROPS = {
         assumptions=["the interleavings the operating system produces are sampled (goroutines + processes, with a parked lock holder "
                      "forcing contention); the theorems cover every interleaving of the model's micro-steps"],
     ),
+    "C17": dict(
+        lean_props="Receptor.Props.C17",
+        engines=[dict(engine="sock", pkg=NETC, test="TestVerifSock", n_quick=60, n_thorough=600)],
+        corr_ops={"sock": ["script"]},
+        facts=["sock_handoff_on_cancel", "sock_readfrom_selects", "sock_ad_remove_checked", "sock_close", "sock_dial_cleanup"],
+        trusted=["quic-go (connection end, idle time-out) and the Go scheduler: the model covers the bookkeeping (registry, parked "
+                 "deliverers, subscriptions, the ephemeral socket of a dial); goroutine counts are measured on the real node, not proved",
+                 "utils.Broker is exercised through SubscribeUnreachable / notices, its internals are not modelled",
+                 "Close of a stale handle unbinds whatever socket now owns the name (the model does the same as the source; see DESIGN A.4)"],
+        assumptions=["left-over goroutines are counted after a settling time of up to 2 s; ephemeral names are looked for up to 4 s "
+                     "after the connections were closed"],
+    ),
     "C19": dict(
         lean_props="Receptor.Props.C19",
         engines=[dict(engine="redact", pkg="pkg/workceptor", test="TestVerifRedact", n_quick=250, n_thorough=2500)],
